@@ -383,8 +383,16 @@ Proof.
   - inversion H; subst. exact HI'.
 Qed.
 
+(** an extra notification does not touch anything the invariant mentions *)
+Lemma inv_xstep s te s' : Inv s -> xstep s te = Some s' -> Inv s'.
+Proof.
+  intros [I1 I2 I3 I4 I5 I6 I7 I8] H. destruct te as [t e].
+  destruct (xstep_inv _ _ _ _ H) as (Et & _ & (Q & B & I & D & T & O & N & S & E & EJ) & _).
+  constructor; rewrite ?Et; unfold owned; rewrite ?Q, ?B, ?I, ?D, ?O, ?N, ?S, ?E; auto.
+Qed.
+
 Lemma inv_reachable cfg fx sp s : reachable_gen cfg fx sp s -> Inv s.
-Proof. induction 1; [apply inv_init | eapply inv_step; eauto]. Qed.
+Proof. induction 1; [apply inv_init | eapply inv_step; eauto | eapply inv_xstep; eauto]. Qed.
 
 (** * Theorems *)
 Lemma nodup_app_r (l l' : list nat) : NoDup (l ++ l') -> NoDup l'.
